@@ -25,6 +25,7 @@ ORDERS = ["sock", "sock2", "ctxsock", "ctx2", "epsock", "ep2", "pipesock", "seq"
 # delay points of hook H5 (src/core/{socket,pipe,dialer,listener}.c) that widen the windows of the races the model found
 DELAYS = ["-", "3:2000,4:2000", "1:3000,2:3000", "15:3000", "7:4000", "8:3000,5:1000", "9:2000,10:2000", "13:1500,14:1500", "6:3000,12:2000", "11:3000"]
 NPROC = 6
+MSGQ_PROTOS = ["req0_raw", "rep0_raw", "sub0_raw", "surveyor0_raw", "respondent0_raw", "pair1_poly"]   # users of nni_msgq in src/sp/protocol
 
 
 def gen_scenarios(rng, tier):
@@ -46,6 +47,21 @@ def gen_scenarios(rng, tier):
         for p in PROTOS:
             if p.endswith("_raw"):
                 add(p, rng.choice(TRANS), "device", rng.choice(["sock", "sock2", "seq"]))
+        # raw sockets whose send/recv go through the socket's upper message queues (nni_msgq: xreq, xrep, xsub,
+        # xsurveyor, xrespondent, pair1-poly): configured SENDBUF/RECVBUF x several operations outstanding at close
+        # (some buffered, some blocked in the queue), aio and blocking-thread forms
+        for p in MSGQ_PROTOS:
+            for nb in (0, 1, 2, 8):
+                for form in ("asend,ssend", "arecv,srecv", "asend,ssend,arecv,srecv", "asend,arecv"):
+                    add(p, rng.choice(TRANS), "sbuf%d,rbuf%d,x%d,%s" % (nb, rng.choice([nb, 0, 1, 2, 8]), rng.randrange(2, 5), form),
+                        rng.choice(["sock", "sock", "sock2", "seq", "lateop"]))
+            add(p, "inproc", "sbuf1,x3,asend,ssend", "sock")
+            add(p, rng.choice(TRANS), "peer,sbuf2,rbuf2,x4,asend,ssend,arecv", rng.choice(["sock", "pipesock", "epsock"]))
+        # context calls of other threads in flight (between nni_ctx_find and nni_ctx_rele) while the socket closes
+        for p in CTX_PROTOS:
+            for t in ("inproc", rng.choice(["tcp", "ipc", "vtran"])):
+                for sh in ("-", "crecv,csend", "peer,crecv"):
+                    add(p, t, sh, "ctxbusy")
         # directed: the five races found with the model, with the delay that makes them certain on an unrepaired tree
         for p in ("req0", "pair0", "sub0", "bus0_raw", "respondent0"):
             t = rng.choice(["inproc", "tcp", "ipc"])
@@ -61,6 +77,18 @@ def gen_scenarios(rng, tier):
                     for sh in SHAPES:
                         for o in ORDERS:
                             add(p, t, sh, o, "-" if rep_ == 0 else rng.choice(DELAYS))
+            for p in MSGQ_PROTOS:
+                for t in TRANS:
+                    for nb in (0, 1, 2, 8):
+                        for nr in (0, 1, 2, 8):
+                            for form in ("asend,ssend", "arecv,srecv", "asend,ssend,arecv,srecv", "peer,asend,ssend,arecv"):
+                                add(p, t, "sbuf%d,rbuf%d,x%d,%s" % (nb, nr, rng.randrange(1, 5), form), rng.choice(["sock", "sock2", "seq", "lateop", "pipesock"]),
+                                    "-" if rep_ == 0 else rng.choice(DELAYS))
+            for p in CTX_PROTOS:
+                for t in TRANS:
+                    for sh in ("-", "crecv,csend", "peer,crecv", "peer,cbrecv,csend"):
+                        for _ in range(5):
+                            add(p, t, sh, "ctxbusy", "-" if rep_ == 0 else rng.choice(DELAYS))
         for p in PROTOS:
             if p.endswith("_raw"):
                 for t in TRANS:
@@ -75,7 +103,10 @@ def run_chunk(binpath, lines, per_scenario_timeout=14):
     returns list of (scenario line, output lines, failure) with failure None | ('W', what) | ('X', rc, stderr)"""
     res = []
     rest = list(lines)
+    nfail = 0
     while rest:
+        if nfail >= 3:
+            break          # three scenarios of this chunk hung or crashed already: enough evidence, do not wait 10 s per further hang
         try:
             p = subprocess.run([binpath, "stress"], input="\n".join(rest) + "\n", capture_output=True, text=True,
                                timeout=per_scenario_timeout * len(rest) + 30, env=dict(os.environ, **ASAN_ENV))
@@ -111,6 +142,7 @@ def run_chunk(binpath, lines, per_scenario_timeout=14):
                 res.append((line, ls, ("X", rc, "scenario not executed: " + err[-1500:])))
             done_upto = i + 1
             failed = True
+            nfail += 1
             break
         rest = rest[done_upto:]
         if not failed and rest:
@@ -184,6 +216,11 @@ def stress(rep, impl, scen, label):
                 if fail[0] == "W":
                     tot["hangs"] += 1
                     txt = "watchdog (10 s): %s did not return / complete in scenario  %s" % (fail[1], line)
+                    if tot["hangs"] <= 3:
+                        # confirm by running the scenario again on its own
+                        again = run_chunk(impl, [line])
+                        f2 = again[0][2] if again else None
+                        txt += "  [re-run alone: %s]" % ("hangs again (%s)" % f2[1] if f2 and f2[0] == "W" else "crashes" if f2 else "completes this time: the hang depends on the schedule")
                     p = rep.replay_file("%s_hang_%s.case" % (label, sid), "# %s\n%s\n# output:\n# %s\n" % (txt, line, "\n# ".join(ls)))
                     rep.violation(p, txt)
                 else:
@@ -208,7 +245,7 @@ def stress(rep, impl, scen, label):
 
 
 # ---------------------------------------------------------------- deterministic scripts (model vs implementation)
-PEER = {"pair0": 16, "pair1": 17, "pub0": 33, "sub0": 32, "req0": 49, "rep0": 48, "push0": 81, "pull0": 80,
+PEER = {"pair1_poly": 17, "pair0": 16, "pair1": 17, "pub0": 33, "sub0": 32, "req0": 49, "rep0": 48, "push0": 81, "pull0": 80,
         "surveyor0": 99, "respondent0": 98, "bus0": 112}
 CTX_PROTOS = ("req0", "rep0", "sub0", "surveyor0", "respondent0")
 
@@ -226,6 +263,8 @@ def gen_script_case(rng, proto, tab):
     base = proto[:-4] if proto.endswith("_raw") else proto
     ph, latch, finic = tab.get(proto, tab.get(base, (1, 0, 0)))
     lines = ["open %s %d %d %d" % (proto, ph, latch, finic)]
+    if proto in MSGQ_PROTOS and rng.random() < 0.7:
+        lines.append("bufs %d ?" % rng.choice([1, 2, 8]))
     nctx = rng.choice([0, 1, 2]) if True else 0
     has_ctx = proto in CTX_PROTOS
     cs = []
@@ -253,7 +292,7 @@ def gen_script_case(rng, proto, tab):
         for _ in range(n):
             lines.append("%s %s a%d ?" % (rng.choice(["recv", "send"]), rng.choice(targets), naio))
             naio += 1
-    ops(rng.randrange(1, 6))
+    ops(rng.randrange(1, 6) if "bufs" not in " ".join(lines) else rng.randrange(4, 12))
     closes = cs + eps + ps + ["s"]
     rng.shuffle(closes)
     if rng.random() < 0.5:
@@ -291,6 +330,8 @@ def script_flags(case, out):
                 if a == own:
                     flag = "n" + rv
             t = t[:-1] + [flag]
+        if t[0] == "bufs" and t[-1] == "?":
+            t = t[:-1] + ["rv%s" % (m.group(1) if m else "0")]
         # completions the protocol produced for reasons of its own (a second request cancels the first, a pipe
         # went away ...): given to the model as events, except at the closes whose effect the model must predict
         if t[0] == "conn" and m and m.group(3) != "-":
@@ -363,7 +404,7 @@ def scripts(rep, impl, model, rng, tier):
     tab = proto_close_table()
     n = 40 if tier == "quick" else 400
     cases = []
-    for p in PROTOS:
+    for p in PROTOS + ["pair1_poly"]:
         for _ in range(n):
             cases.append(gen_script_case(rng, p, tab))
     # the deterministic transport of harness/vtran.h has room for 256 pipes per process: batches of 40 cases
@@ -455,6 +496,15 @@ def run(tier, seed, replay=None):
     rep.cov["model_exploration"] = exp
     rep.cov["model_flags"] = flags[:1]
     allfixed = bool(flags) and "false" not in flags[0]
+    consts = open(os.path.join(COQ, "Gen", "Consts.v")).read()
+    pinned = re.findall(r"Definition (C10_(?:FX_\w+|MSGQ_CLOSE_ALL)) : bool := false\.\s*\(\* (.*?) \*\)", consts)
+    rep.cov["source_shape_flags_false"] = [a for a, _ in pinned]
+    if pinned:
+        # the source no longer has the shape for which the property is proved: the theorems of Properties_C10 select
+        # the defect's witness (pinned_defect) -- the scenarios below look for the failing input on the library itself
+        p = rep.replay_file("pinned_shape.txt", "\n".join("%s = false: NOT(%s)" % x for x in pinned) +
+                            "\nmodel witness: coq/Core/CloseProofs.v (w_ephold, w_epid, w_ctxfini, w_lateop, w_ctxopen, w_ctxmark); Queue/MsgqModel.v MClose\n")
+        rep.violation(p, "the source lost a shape the close proof depends on: %s" % "; ".join("%s (%s)" % x for x in pinned), nofail=True)
     if (rc != 0 or not out or not out[-1].startswith("explore-done")):
         p = rep.replay_file("explore_failed.txt", "\n".join(out[-30:]) + errtxt[-2000:])
         rep.violation(p, "the model's exhaustive search did not run", nofail=True)
